@@ -118,3 +118,65 @@ Definition dfrag_why (fb : flat) : list bool :=
     forallb (fun p => (list_sum (map snd (mult_of fb (snd p))) =? chunk_of fb (fst p) (snd p))) xs;
     forallb (xfrag fb) xs;
     forallb (xfrag_d fb) xs ].
+
+(** * Exclusions of crossed levels (fragment [efrag])
+
+    An [Exclude] constraint on a level of a crossed factor removes every
+    combination holding that level from the crossing: the admitted combinations
+    are the others, with their weights; the crossing size of the record must be
+    their total weight.  (Combinations removed through a derived level that is
+    not itself crossed, [fl_excluded_derived], change the crossing size without
+    being visible here: such records fail the size guard.) *)
+Definition excl_by_constraint (fb : flat) (f l : nat) : bool :=
+  existsb (fun c => match c with FExclude f' l' => (f' =? f) && (l' =? l) | _ => false end) (fl_constraints fb).
+
+Definition combo_admitted (fb : flat) (fs c : list nat) : bool :=
+  negb (existsb (fun fl => excl_by_constraint fb (fst fl) (snd fl)) (combine fs c)).
+
+Definition mult_x (fb : flat) (fs : list nat) : list (list nat * nat) :=
+  filter (fun cm => combo_admitted fb fs (fst cm)) (mult_of fb fs).
+
+Definition crossing_sem_x (fb : flat) (p : nat * list nat) : Sem.dcrossing :=
+  {| Sem.c_factors := snd p; Sem.c_first := crossing_preamble fb (fst p);
+     Sem.c_chunk := chunk_of fb (fst p) (snd p); Sem.c_mult := mult_x fb (snd p) |}.
+
+Definition code_sem_x (fb : flat) : Sem.sem :=
+  {| Sem.s_trials := fl_trials fb;
+     Sem.s_factors := map (dfactor_of fb) (combine (seq 0 (length (fl_design fb))) (fl_design fb));
+     Sem.s_crossings := map (crossing_sem_x fb) (combine (seq 0 (length (fl_crossings fb))) (fl_crossings fb));
+     Sem.s_constraints := flat_map (csem_n fb) (fl_constraints fb) |}.
+
+Definition cfrag_x (fb : flat) (c : fconstraint) : bool :=
+  match c with FExclude f _ => f <? length (fl_design fb) | _ => cfrag_d fb c end.
+
+Definition xfrag_x (fb : flat) (p : nat * list nat) : bool :=
+  let fs := snd p in
+  forallb (fun f => f <? length (fl_design fb)) fs
+  && nodupb (all_combos (map (nlev fb) fs))
+  && (list_sum (map snd (mult_x fb fs)) =? chunk_of fb (fst p) fs)
+  && (1 <=? chunk_of fb (fst p) fs)
+  && forallb (fun f => forallb (app_at fb f) (seq (crossing_preamble fb (fst p)) (fl_trials fb - crossing_preamble fb (fst p)))) fs.
+
+(** [dfrag] with [Exclude] constraints on crossed factors *)
+Definition efrag (fb : flat) : bool :=
+  forallb (ffrag_d fb) (fl_design fb)
+  && forallb (fun su => (1 <=? su) && (fl_trials fb mod su =? 0)) (fl_sustains fb)
+  && (forallb (fun su => su =? 1) (fl_sustains fb) || existsb is_sustain (fl_constraints fb))
+  && forallb (cfrag_x fb) (fl_constraints fb)
+  && forallb (xfrag_x fb) (combine (seq 0 (length (fl_crossings fb))) (fl_crossings fb)).
+
+Definition efrag_why (fb : flat) : list bool :=
+  let xs := combine (seq 0 (length (fl_crossings fb))) (fl_crossings fb) in
+  [ forallb (fun fd => negb (ff_hidden fd)) (fl_design fb);
+    forallb (fun fd => 1 <=? length (ff_levels fd)) (fl_design fb);
+    forallb (fun fd => match ff_window fd with None => true | Some w => forallb (dep_ok fb) (win_deps w) end) (fl_design fb);
+    forallb (fun su => (1 <=? su) && (fl_trials fb mod su =? 0)) (fl_sustains fb);
+    forallb (fun su => su =? 1) (fl_sustains fb) || existsb is_sustain (fl_constraints fb);
+    forallb (fun c => match c with FLatin _ | FExactlyKMultiple _ _ _ _ | FOther _ => false | _ => true end)
+            (fl_constraints fb);
+    forallb (fun c => match c with
+                      | FLatin _ | FExactlyKMultiple _ _ _ _ | FOther _ => true
+                      | _ => cfrag_x fb c
+                      end) (fl_constraints fb);
+    forallb (fun p => (list_sum (map snd (mult_x fb (snd p))) =? chunk_of fb (fst p) (snd p))) xs;
+    forallb (xfrag_x fb) xs ].
